@@ -2,6 +2,7 @@
 From Coq Require Import String ZArith List.
 From NX Require Import Bytes PyStruct StructCanon Frame Stream Stream_proofs Stream_values Stream_enc_proofs
   Pinned_parse Pinned_parserecv Pinned_iparse.
+From NX Require PyLite Src_all Src_stream_enc_proofs.
 Open Scope list_scope.
 Open Scope Z_scope.
 
@@ -45,6 +46,31 @@ Proof. exact meta_roundtrip. Qed.
 (** together with C04_payload / C04_any_row (stream decode of any sequence of
     well-formed encoded samples) this gives: decode (encode ss) = the non-empty
     samples, in order.  Worked instance, fixed-point and channel id 200: *)
+(** ** ParseRecv._stream_bytes_get / _stream_data_encode / frame_stream_encode (and the table
+    functions msfmt_get / dsfmt_get of iparse.py) as they are now: the regenerated abstract
+    syntax run by the PyLite interpreter computes the model above for every list of samples in
+    the domain [sample_ok] (skipped samples, unknown types, and for known types: non-negative
+    vdim / mlen and values that are integers, fixed-point values raw / 2^k with |raw| <= 2^53,
+    text of valid code points, or nothing; IEEE float samples are outside PyLite's float
+    fragment).  [samp_pv] is the DParseStreamData object of a model sample. *)
+Section OnSource.
+Import ListNotations PyLite Src_all Src_stream_enc_proofs.
+Open Scope string_scope.
+Open Scope list_scope.
+
+Theorem C15_encode_src : forall n cbv l,
+  Forall sample_ok l ->
+  call_method program (5 + n) (pr cbv) "frame_stream_encode" [PList (map samp_pv l)] =
+  emb_opt_m (pr cbv) (Stream.frame_stream_encode [] l).
+Proof. exact frame_stream_encode_spec. Qed.
+
+Theorem C15_payload_src : forall n cbv l,
+  Forall sample_ok l ->
+  call_method program (4 + n) (pr cbv) "_stream_data_encode" [PList (map samp_pv l)] =
+  emb_opt_m (pr cbv) (Stream.stream_data_encode [] l).
+Proof. exact stream_data_encode_spec. Qed.
+End OnSource.
+
 Example C15_example :
   frame_stream_encode []
     [mkESample 200 12 1 0 [EVFix 384] []; mkESample 3 1 0 0 [] []; mkESample 1 3 2 1 [EVInt (-1); EVInt 5] [9]] =
@@ -56,3 +82,4 @@ Print Assumptions C15_none.
 Print Assumptions C15_some.
 Print Assumptions C15_data_roundtrip.
 Print Assumptions C15_meta_roundtrip.
+Print Assumptions C15_encode_src.
